@@ -4,6 +4,7 @@ import (
 	"encoding/binary"
 	"fmt"
 	"math/rand/v2"
+	"sync"
 	"time"
 
 	"github.com/scionproto/scion/pkg/addr"
@@ -14,6 +15,23 @@ import (
 	"verif/mon"
 	"verif/rfix"
 )
+
+// forStars runs body for n router fixtures concurrently; every fixture has its
+// own PRNG stream derived from (seed, property, index).
+func forStars(r *mon.Run, n int, body func(si int, rng *rand.Rand)) {
+	sem := make(chan struct{}, r.Pick(8, 14))
+	var wg sync.WaitGroup
+	for si := 0; si < n; si++ {
+		wg.Add(1)
+		sem <- struct{}{}
+		go func(si int) {
+			defer wg.Done()
+			defer func() { <-sem }()
+			body(si, r.Rand(fmt.Sprintf("%s-star-%d", r.ID, si)))
+		}(si)
+	}
+	wg.Wait()
+}
 
 func newStdStar(r *mon.Run, rng *rand.Rand, reuse, auth bool) *rfix.Star {
 	key := make([]byte, 16)
@@ -123,15 +141,14 @@ func checkC01(r *mon.Run) {
 		"expiry cases are judged with the time-bracket rule (router calls time.Now() internally); offsets keep >= 2 s from the boundary in quick tier",
 		"a 48-bit MAC collision (2^-48) is ignored",
 	}
-	rng := r.Rand("c01")
-	nStars := r.Pick(6, 24)
-	perStar := r.Pick(6000, 60000)
-	for si := 0; si < nStars; si++ {
+	nStars := r.Pick(16, 48)
+	perStar := r.Pick(30000, 250000)
+	forStars(r, nStars, func(si int, rng *rand.Rand) {
 		s := newStdStar(r, rng, si%2 == 0, si%3 == 0)
 		for i := 0; i < perStar; i++ {
 			c01Case(r, rng, s, i)
 		}
-	}
+	})
 	r.Require(int64(nStars*perStar), 60, "valid_accepted", "perturbed_rejected_scmp", "expired_rejected", "xover_second_hop_rejected", "epic_wrapped")
 }
 
